@@ -44,6 +44,12 @@ def c19(tier):
     # fixed sequences: both files valid, then one replaced (the recorded multi-file defect), invalid then valid elsewhere
     seqs.append({"id": len(seqs), "variant": "opl", "single": False, "steps": [{"f": "a", "kind": "valid"}, {"f": "b", "kind": "valid"}, {"f": "a", "kind": "valid"}]})
     seqs.append({"id": len(seqs), "variant": "opl", "single": False, "steps": [{"f": "a", "kind": "valid"}, {"f": "b", "kind": "valid"}, {"f": "b", "kind": "invalid"}, {"f": "a", "kind": "valid"}, {"f": "b", "kind": "valid"}]})
+    # a file whose FIRST version is invalid, a valid change of the other file meanwhile, then the repair: everything on disk is
+    # valid at the end and the latest versions of both must be served
+    seqs.append({"id": len(seqs), "variant": "opl", "single": False, "steps": [{"f": "a", "kind": "valid"}, {"f": "b", "kind": "invalid"}, {"f": "a", "kind": "valid"}, {"f": "b", "kind": "valid"}]})
+    seqs.append({"id": len(seqs), "variant": "opl", "single": False, "steps": [{"f": "b", "kind": "invalid"}, {"f": "a", "kind": "valid"}, {"f": "a", "kind": "valid"}, {"f": "b", "kind": "valid"}, {"f": "a", "kind": "valid"}]})
+    for variant in ("json", "yaml"):
+        seqs.append({"id": len(seqs), "variant": variant, "single": False, "steps": [{"f": "a", "kind": "valid"}, {"f": "b", "kind": "invalid"}, {"f": "a", "kind": "valid"}, {"f": "b", "kind": "valid"}]})
     recs = {x["id"]: x for x in run_harness(binary, "reload", {"seqs": seqs}, timeout=2400)}
     ok_traces = 0
     per = {}
